@@ -19,7 +19,7 @@ RULE = ("Hypothesis filter definitions over the documented condition kinds (head
         "alone and in sets reached by histories of add/update/replace/disable/enable/move/remove; oracle: Parser accepts, "
         "reference recogniser in strict mode says VALID, leading require covers every extension used (frozen table walk), "
         "token skeleton equals the skeleton of the same definition with benign placeholder values, multiset of decoded string "
-        "literals equals the supplied values. Non-trivial = a value with a hostile character, an extension-bearing tag or a "
+        "literals equals the supplied values; histories are rendered and judged after every operation. Non-trivial = a value with a hostile character, an extension-bearing tag or a "
         "list-valued action argument; distinct by definition/history.")
 
 HOSTILE_CH = set('"\\,[](){};#\n\r$:') | set("é€😀")
